@@ -1,6 +1,6 @@
 (* C16: restriction mode after a liquidation.  Statements only. *)
 From MP.Model Require Import Prelude U128 SInt Feed Vamm VammOps Token World Engine Runtime.
-From MP.Proofs Require Import Tactics EngineGuards MoreFacts RestrictFacts.
+From MP.Proofs Require Import Tactics EngineGuards MoreFacts RestrictFacts Scenario.
 
 Theorem C16_guard_blocks : forall w v t,
   vm_lrb (read_vmap (w_eng w) v) = height (w_env w) ->
@@ -109,3 +109,22 @@ Theorem C16_restricted_after_both : forall f w t v s m l lim funds,
   step_f f w (OEngine t (EClosePosition v lim) funds) = (w, false).
 Proof. exact restricted_after_both. Qed.
 Print Assumptions C16_restricted_after_both.
+
+(* non-vacuity: in the concrete scenario trader 21 trades, then trader 22 (made liquidatable by raising the
+   maintenance ratio) is liquidated in the same block: marker and stamp are both at the current height, and
+   trader 21's next OpenPosition and ClosePosition are refused *)
+Definition c16_example : bool :=
+  match scenario with
+  | Ok w =>
+      let w1 := run w [OEngine 21 (EOpenPosition 11 Buy 1000000 2000000 0) 0;
+                       OEngine 1 (EUpdateConfig None None None (Some 900000) (Some 900000) None None) 0;
+                       OEngine 31 (ELiquidate 11 22 0) 0] in
+      (vm_lrb (read_vmap (w_eng w1) 11) =? height (w_env w1)) &&
+      (p_block (read_position (w_eng w1) 11 21) =? height (w_env w1)) &&
+      match find_position (w_eng w1) 11 22 with None => true | Some _ => false end &&
+      negb (snd (step_f (-1) w1 (OEngine 21 (EOpenPosition 11 Buy 1000000 2000000 0) 0))) &&
+      negb (snd (step_f (-1) w1 (OEngine 21 (EClosePosition 11 0) 0)))
+  | Err _ => false
+  end.
+Example C16_nonvacuous : c16_example = true.
+Proof. vm_compute. reflexivity. Qed.
